@@ -216,6 +216,19 @@ func (w *wctx) watch() {
 			// where the entry happens to be executing varies from run to run; the
 			// function holding the most live heap does not
 			site, frames := heapSite(true)
+			if site == "" {
+				// the heap profile lags two collection cycles behind, and an entry
+				// that has just returned leaves its giant allocation as garbage:
+				// bring the profile up to date, then fall back from live bytes to
+				// allocated bytes (the goroutine dump below says where the entry
+				// happens to be, which varies from run to run)
+				runtime.GC()
+				runtime.GC()
+				runtime.GC()
+				if site, frames = heapSite(true); site == "" {
+					site, frames = heapSiteOpt(false, true)
+				}
+			}
 			fmt.Fprintf(os.Stderr, "C11-RUNAWAY case=%d entry=%d heap=%d after=%dms site=%s frames=%s\n%s\n", w.curCase.Load(), w.curEntry.Load(), v, (time.Now().UnixNano()-st)/1e6, site, strings.Join(frames, "<"), buf)
 			os.Exit(97)
 		}
@@ -377,7 +390,12 @@ func biggestAllocSite() (string, []string) {
 
 // heapSite: inUse selects the record holding the most live bytes (runaway
 // growth in a long-lived worker), otherwise the most allocated bytes.
-func heapSite(inUse bool) (string, []string) {
+func heapSite(inUse bool) (string, []string) { return heapSiteOpt(inUse, false) }
+
+// heapSiteOpt: with relicOnly only allocation sites reached through relic code
+// count (cumulative allocation of the harness's own sites over a batch is not
+// the entry's).
+func heapSiteOpt(inUse, relicOnly bool) (string, []string) {
 	n, _ := runtime.MemProfile(nil, true)
 	recs := make([]runtime.MemProfileRecord, n+50)
 	n, ok := runtime.MemProfile(recs, true)
@@ -390,6 +408,22 @@ func heapSite(inUse bool) (string, []string) {
 		v := recs[i].AllocBytes
 		if inUse {
 			v = recs[i].InUseBytes()
+		}
+		if relicOnly {
+			through := false
+			fr := runtime.CallersFrames(recs[i].Stack())
+			for {
+				f, more := fr.Next()
+				if strings.HasPrefix(f.Function, relicPrefix) && !strings.Contains(f.Function, "zzverif/bridge") {
+					through = true
+				}
+				if through || !more {
+					break
+				}
+			}
+			if !through {
+				continue
+			}
 		}
 		if best == nil || v > bestV {
 			best, bestV = &recs[i], v
